@@ -416,6 +416,38 @@ func errBranchBlocks(ci ssa.CallInstruction) map[*ssa.BasicBlock]bool {
 		errVals = append(errVals, v)
 	}
 	f := ci.Parent()
+	// (value, ok bool): the branch on which ok is false
+	if tup, isTuple := v.Type().(*types.Tuple); isTuple && tup.Len() >= 2 && isBoolType(tup.At(tup.Len()-1).Type()) {
+		for _, r := range *v.Referrers() {
+			ex, ok := r.(*ssa.Extract)
+			if !ok || ex.Index != tup.Len()-1 || ex.Referrers() == nil {
+				continue
+			}
+			mark := func(t *ssa.BasicBlock) {
+				for _, b := range f.Blocks {
+					if t.Dominates(b) {
+						out[b] = true
+					}
+				}
+			}
+			for _, r2 := range *ex.Referrers() {
+				switch y := r2.(type) {
+				case *ssa.If:
+					if len(y.Block().Succs[1].Preds) == 1 {
+						mark(y.Block().Succs[1])
+					}
+				case *ssa.UnOp:
+					if y.Op == token.NOT && y.Referrers() != nil {
+						for _, r3 := range *y.Referrers() {
+							if iff, ok := r3.(*ssa.If); ok && len(iff.Block().Succs[0].Preds) == 1 {
+								mark(iff.Block().Succs[0])
+							}
+						}
+					}
+				}
+			}
+		}
+	}
 	for _, ev := range errVals {
 		if ev.Referrers() == nil {
 			continue
